@@ -86,3 +86,15 @@ def fill(claim, NA):
 		  "Trusted: Lean kernel + 3 axioms; harness. FP: golden ratio constants are doubles, Python rounds every step (x* compared to 1e-9), step count n uses math.log/ceil. "
 		  "The unconditional bracket theorem needs r*r = 1-r (real golden ratio, no rational satisfies it): open target; proved form is conditional on allOrdered, checked per run. "
 		  "Simulation-based objectives are exercised Python-side only.")
+
+	claim('C17',
+		  "Theorems (Props/C17.lean): the instance file refines a finite map name -> data: load_save_same, load_save_other (other instances preserved for replace/append/no-replace), "
+		  "load_save_new, save_noreplace, store_refines_map (every operation, hence every operation sequence, behaves as on the abstract map and returns the same result); "
+		  "keys_roundtrip (a dict survives any key codec whose decoder inverts its encoder; with a concrete non-inverting codec the example shows integer keys coming back as strings); "
+		  "table_aligned and sorted_columns_keep_labels (header/row built from one column list; key-sorting keeps each value with its key). "
+		  "Tie: (a) to_dict->json->from_dict and save_instance/load_instance round trips of random single-/multi-product networks with node-, product- and (node,product)-level "
+		  "attributes, with and without saved state variables: deep_equal_to, an independent field-wise comparison, original unchanged, identical trajectories under one seed; "
+		  "(b) save/replace/load sequences on one file vs the Lean store model (exact); (c) every cell of the results CSV vs the state variable its header names.",
+		  "Trusted: Lean kernel + 3 axioms; harness; the json module and int<->str key conversion (keys_roundtrip is parametric in the codec). Equality of reloaded networks and "
+		  "of their trajectories is judged on the real objects (Python-vs-Python); the recursive to_dict/from_dict of the four classes is not modelled in Lean beyond the key-codec law. "
+		  "Product-level policy objects lose their node link on reload (documented exception): for such networks equality is judged field-wise and the link is restored before simulating.")
